@@ -4,6 +4,7 @@
      grpc/error.go  EncodeError (code selection) / NewErrorResponse / NewServiceError
    Definitions only; proofs are in Lemmas.v, property statements in Properties.v. *)
 From Coq Require Export List Bool String Ascii Arith.
+From Coq Require Import DecimalString.
 Export ListNotations.
 Open Scope string_scope.
 
@@ -196,18 +197,39 @@ Definition client_flags (code : nat) : bool * bool * bool :=   (* timeout, tempo
    http/encoding.go ErrorEncoder, http/error.go NewErrorResponse, grpc/error.go EncodeError
    all look for the *ServiceError with errors.As, i.e. depth first, left to right through
    Unwrap() error / Unwrap() []error. *)
+(* a detail message attached to a gRPC status: goa's ErrorResponse, or any other message *)
+Inductive detail := DResp (r : resp) | DOther (tag : string).
+
 Inductive eshape :=
 | EPlain (msg : string)              (* an error that neither is nor wraps a *ServiceError *)
+| EStatus (code : nat) (msg : string) (dets : list detail)
+                                     (* status.New(code, msg) with details, .Err(); code <> 0: the
+                                        status of code OK is the nil error *)
 | EServ (c : core)                   (* a *ServiceError (what it wraps itself is never looked at) *)
 | EWrap (w : string) (e : eshape)    (* fmt.Errorf(w+": %w", e), or any type whose Unwrap() returns e *)
 | EJoin (a b : eshape).              (* errors.Join(a, b) *)
 
 Definition nl : string := String "010"%char EmptyString.
 
+(* codes.Code.String() *)
+Definition code_name (c : nat) : string :=
+  match c with
+  | 0 => "OK" | 1 => "Canceled" | 2 => "Unknown" | 3 => "InvalidArgument" | 4 => "DeadlineExceeded"
+  | 5 => "NotFound" | 6 => "AlreadyExists" | 7 => "PermissionDenied" | 8 => "ResourceExhausted"
+  | 9 => "FailedPrecondition" | 10 => "Aborted" | 11 => "OutOfRange" | 12 => "Unimplemented"
+  | 13 => "Internal" | 14 => "Unavailable" | 15 => "DataLoss" | 16 => "Unauthenticated"
+  | _ => "Code(" ++ NilZero.string_of_uint (Nat.to_uint c) ++ ")"
+  end.
+
+(* the Error() of a gRPC status error *)
+Definition status_string (c : nat) (m : string) : string :=
+  "rpc error: code = " ++ code_name c ++ " desc = " ++ m.
+
 (* err.Error() *)
 Fixpoint error_string (e : eshape) : string :=
   match e with
   | EPlain m => m
+  | EStatus c m _ => status_string c m
   | EServ c => cmsg c
   | EWrap w e => w ++ ": " ++ error_string e
   | EJoin a b => error_string a ++ nl ++ error_string b
@@ -217,6 +239,7 @@ Fixpoint error_string (e : eshape) : string :=
 Fixpoint find_serr (e : eshape) : option core :=
   match e with
   | EPlain _ => None
+  | EStatus _ _ _ => None
   | EServ c => Some c
   | EWrap _ e => find_serr e
   | EJoin a b => match find_serr a with Some c => Some c | None => find_serr b end
@@ -282,6 +305,7 @@ Definition grpc_encode (fid : string) (e : eshape) : grpc_code * string * resp :
 Fixpoint serrs (e : eshape) : list core :=
   match e with
   | EPlain _ => []
+  | EStatus _ _ _ => []
   | EServ c => [c]
   | EWrap _ e => serrs e
   | EJoin a b => (serrs a ++ serrs b)%list
@@ -297,3 +321,76 @@ Definition encoded_core (fid : string) (e : eshape) : core :=
 
 (* n wrappers around an error *)
 Definition wrap_all (ws : list string) (e : eshape) : eshape := fold_right EWrap e ws.
+
+(* ---- grpc.EncodeError in full: errors that already are (or wrap) a gRPC status ---- *)
+
+(* the status a gRPC error carries: code, message, details *)
+Record gstatus := { gcode : nat; gmsg : string; gdetails : list detail }.
+
+(* errors.As(err, &grpcstatus) inside status.FromError: first status of the chain *)
+Fixpoint find_status (e : eshape) : option gstatus :=
+  match e with
+  | EPlain _ => None
+  | EStatus c m ds => Some {| gcode := c; gmsg := m; gdetails := ds |}
+  | EServ _ => None
+  | EWrap _ e => find_status e
+  | EJoin a b => match find_status a with Some s => Some s | None => find_status b end
+  end.
+
+Definition is_status (e : eshape) : bool := match e with EStatus _ _ _ => true | _ => false end.
+
+(* status.FromError: the error's own status when it is one; when it only wraps one, that
+   status with the message replaced by err.Error() *)
+Definition from_error (e : eshape) : option gstatus :=
+  match find_status e with
+  | Some s => Some {| gcode := gcode s; gmsg := if is_status e then gmsg s else error_string e; gdetails := gdetails s |}
+  | None => None
+  end.
+
+Definition code_num (c : grpc_code) : nat :=
+  match c with Unknown => 2 | Internal => 13 | DeadlineExceeded => 4 | Unavailable => 14 end.
+
+(* grpc.NewErrorResponse *)
+Definition grpc_error_response (fid : string) (e : eshape) : resp :=
+  match find_serr e with
+  | Some c => resp_of_core c
+  | None => resp_of_core (fault_core (error_string e) fid)
+  end.
+
+(* grpc.EncodeError: a status keeps its code, message and details and gains the
+   ErrorResponse as LAST detail; anything else gets the code of the table *)
+Definition grpc_encode_full (fid : string) (e : eshape) : gstatus :=
+  let er := DResp (grpc_error_response fid e) in
+  match from_error e with
+  | Some st => {| gcode := gcode st; gmsg := gmsg st; gdetails := (gdetails st ++ [er])%list |}
+  | None => {| gcode := match find_serr e with Some c => code_num (code_of_flags c) | None => 2 end;
+               gmsg := error_string e; gdetails := [er] |}
+  end.
+
+(* grpc.DecodeError: the FIRST detail *)
+Definition grpc_decode (s : gstatus) : option detail := hd_error (gdetails s).
+
+(* the error value st.Err() of an encoded status, as a shape *)
+Definition shape_of_status (s : gstatus) : eshape := EStatus (gcode s) (gmsg s) (gdetails s).
+
+(* spec side: the statuses a shape holds, in the order errors.As meets them *)
+Fixpoint statuses (e : eshape) : list gstatus :=
+  match e with
+  | EPlain _ => []
+  | EStatus c m ds => [{| gcode := c; gmsg := m; gdetails := ds |}]
+  | EServ _ => []
+  | EWrap _ e => statuses e
+  | EJoin a b => (statuses a ++ statuses b)%list
+  end.
+
+(* well-formed shapes: no status of code OK (that one is the nil error) *)
+Fixpoint wf_shape (e : eshape) : bool :=
+  match e with
+  | EPlain _ | EServ _ => true
+  | EStatus c _ _ => negb (Nat.eqb c 0)
+  | EWrap _ e => wf_shape e
+  | EJoin a b => wf_shape a && wf_shape b
+  end.
+
+(* encoding an already encoded status again, as the error st.Err() it is *)
+Definition reencode (fid : string) (s : gstatus) : gstatus := grpc_encode_full fid (shape_of_status s).
